@@ -4,6 +4,7 @@ import Nject.Pipeline
 import Nject.Slots
 import Nject.Validate
 import Nject.Helpers
+import Nject.Condense
 /-
   Line-protocol driver: reads the case blocks the Go harness writes, rebuilds the compiled
   chain from the implementation's own S7 dump, runs `Exec` and `Spec` with the scripted
@@ -448,6 +449,11 @@ def runSaveToLine (toks : List String) : String :=
   let f := ",".intercalate (st.map fun | some v => toString v | none => "unset")
   s!"msaveto {i} ok stored={f}"
 
+def runCondenseFlows (a : CaseAcc) : String :=
+  match condenseFlows stdTyInfo a.pdescs.reverse with
+  | none => s!"mflows {a.n} none"
+  | some f => s!"mflows {a.n} in={fmtTys f.downIn} out={fmtTys f.upOut} true={fmtTys f.upOut} upnet={fmtTys f.upNet}"
+
 def stepLine (a : CaseAcc) (line : String) : CaseAcc × List String :=
   let toks := (line.splitOn " ").filter (· != "")
   match toks with
@@ -469,6 +475,7 @@ def stepLine (a : CaseAcc) (line : String) : CaseAcc × List String :=
   | "bind" :: "ok" :: _ => ({ a with bindOk := true }, [])
   | "op" :: kind :: vals :: _ => ({ a with ops := (kind, parseVals vals) :: a.ops }, [])
   | "end" :: _ => ({}, runCase a)
+  | "cflows" :: _ => (a, [runCondenseFlows a])
   | "curry" :: _ => (a, [runCurryLine toks])
   | "filler" :: _ => (a, [runFillerLine toks])
   | "saveto" :: _ => (a, [runSaveToLine toks])
